@@ -269,8 +269,18 @@ def compare_table(ctx, rule, fnkey, body, expected, allowed_extra=()):
                 fmt_atom(eatom), list(ectx), body.path), ctx.where(body))
     used_rows = {id(actual[i][2]) for i in used}
     tabled = set()
+
+    def is_allowed(c, a):
+        # exact (context, atom) entries, (None, atom) for any context, or a predicate over (context, atom)
+        for x in allowed_extra:
+            if callable(x):
+                if x(c, a):
+                    return True
+            elif x == (c, a) or (x[0] is None and x[1] == a):
+                return True
+        return False
     for (c, a, r) in actual:
-        if (c, a) in allowed_extra or a in [x for _, x in allowed_extra if _ is None]:
+        if is_allowed(c, a):
             tabled.add(id(r))
     for r in rows:
         # the guards inside a tabled helper call are covered by the table entry of the call
@@ -294,7 +304,7 @@ def compare_table(ctx, rule, fnkey, body, expected, allowed_extra=()):
         if i in used or id(r) in used_rows:
             continue
         key = '%s/%s/extra/%s' % (rule, fnkey, fmt_atom((c, a)))
-        if (c, a) in allowed_extra or a in [x for _, x in allowed_extra if _ is None]:
+        if is_allowed(c, a):
             rep.ok(rule, key, 'tabled extra guard %s (cannot reject a documented-valid input)' % fmt_atom(a), ctx.where(body, r['guard'].bb), nontrivial=False)
         elif a[0] == 'unknown':
             rep.idiom_absent(rule, key, 'unrecognised extra condition %s (not decided)' % fmt_atom(a))
